@@ -4,6 +4,7 @@ import re
 
 from ..astutil import norm, const, NO, compare, tail, names
 from ..index import AnalysisError, walk_own, builtin_exc
+from ..absint import Explorer, Inst, UNKNOWN
 from .common import (site, key, calls_to, method_calls, nodes_with, guard_check, stores_to_name)
 
 HANDLES = ["gunicorn.workers.sync.SyncWorker.handle", "gunicorn.workers.gthread.ThreadWorker.handle", "gunicorn.workers.base_async.AsyncWorker.handle"]
@@ -137,8 +138,19 @@ def r1_r2_r5(ctx):
         ctx.check("C05.R5", any(t in ("Exception", "BaseException") for t in lt), key(f, "catch-all"), site(f),
                   "the outermost try of %s has no catch-all clause: an unexpected exception kills the worker loop / pool thread" % f.short, "outermost catch-all `except %s`" % ",".join(lt))
         # R5: statements outside the outer try are trivial
+        def socket_option(n):
+            """`client.setblocking(1)` / `util.close_on_exec(client)` on the socket accept() just returned: reviewed --
+            the reference tree runs them unguarded too (in SyncWorker.accept), whichever side of the call they sit on"""
+            st = n.ast
+            if isinstance(st, ast.Expr) and isinstance(st.value, ast.Call):
+                c = st.value
+                if isinstance(c.func, ast.Attribute) and c.func.attr in ("setblocking", "settimeout") and isinstance(c.func.value, ast.Name) and c.func.value.id in f.params:
+                    return True
+                if repo.call_target(f.module, f, c) in ("gunicorn.util.close_on_exec", "gunicorn.util.set_non_blocking") and all(isinstance(a, ast.Name) and a.id in f.params for a in c.args):
+                    return True
+            return False
         outside = [n for n in g.nodes if n.kind in ("stmt", "test", "for", "with") and not any(a is outer for a in f.module.ancestors(n.ast)) and n.ast is not outer
-                   and any(b is g.raise_exit for b, l in n.out if l == "exc")]
+                   and any(b is g.raise_exit for b, l in n.out if l == "exc") and not socket_option(n)]
         ctx.check("C05.R5", not outside, key(f, "nothing-outside-try"), site(f, outside[0] if outside else None),
                   "a statement outside the try of %s can raise into the caller" % f.short, "only trivial statements outside the try")
         # ---- R2: no path from an except clause to the dispatch
@@ -209,46 +221,112 @@ def stale_request(ctx):
                       "and writes a second access-log record / error status for it" % R, "`%s = None` before every next(parser)" % R)
 
 
+def explore_handle_error(repo, payload):
+    """{exception class: (replies, request objects, outcome kinds)} of Worker.handle_error, evaluated per class with
+    every attribute of the exception (and its str()) carrying `payload`"""
+    f = repo.func(BASE + ".handle_error")
+    g = f.cfg
+    EXC = f.params[4]
+    we_nodes = [(n, c) for c in calls_to(repo, f, "gunicorn.util.write_error") for n in nodes_with(f, c)]
+    if not we_nodes:
+        raise AnalysisError("C05.R3: handle_error does not call util.write_error")
+    REQ, ADDR0 = f.params[1], f.params[3]
+    req_uses = []          # (node, expr) where a value is used as the request object
+    for c in walk_own(f.node):
+        if isinstance(c, ast.Call):
+            q = repo.call_target(f.module, f, c) or ""
+            if q.endswith("default_environ") and c.args:
+                req_uses += [(n, c.args[0]) for n in nodes_with(f, c)]
+            elif isinstance(c.func, ast.Attribute) and c.func.attr == "access" and len(c.args) >= 2:
+                req_uses += [(n, c.args[1]) for n in nodes_with(f, c)]
+    classes = [c for c in repo.classes() if c.module.name == ERR]
+    REQUEST = Inst("gunicorn.http.message.Request")
+    out = {}
+    for cq in sorted([c.qualname for c in classes]) + ["ssl.SSLError", "ValueError", "KeyError"]:
+        attrs = {"args": (payload,)}
+        init = repo.lookup_method(cq, "__init__") if repo.has_cls(cq) else None
+        if init is not None:
+            nd = len(init.node.args.defaults)
+            optional = set(init.params[len(init.params) - nd:]) if nd else set()
+            for x in walk_own(init.node):
+                if isinstance(x, ast.Attribute) and isinstance(x.ctx, ast.Store) and tail(x.value) == init.params[0]:
+                    # the optional `req=None` slot carries the Request; a positional `req` (InvalidRequestLine) is the line text
+                    attrs[x.attr] = REQUEST if (x.attr == "req" and "req" in optional) else payload
+        exc = Inst(cq, **attrs)
+        exc.__dict__["_str"] = "%s<%s>" % (cq.split(".")[-1], payload)
+        probes = {}
+        for n, c in we_nodes:
+            probes[n.id] = ("reply", lambda e_, env, c=c: tuple(e_.ev(a, env) for a in c.args[1:4]))
+        for n, a in req_uses:
+            probes[n.id] = ("req", lambda e_, env, a=a: e_.ev(a, env))
+        ex = Explorer(f)
+        outs = ex.run(g.entry, {EXC: exc, REQ: None, ADDR0: ("192.0.2.1", 5)}, probes=probes)
+        replies, reqs, kinds = set(), set(), set()
+        for o in outs:
+            kinds.add(o.kind)
+            for ev_ in o.events:
+                if isinstance(ev_, tuple) and ev_[0] == "reply":
+                    replies.add(ev_[1])
+                if isinstance(ev_, tuple) and ev_[0] == "req":
+                    reqs.add(ev_[1])
+        out[cq] = (replies, reqs, kinds)
+    return out
+
+
+def status_reason_fixed(repo):
+    """(ok, values): the (status, reason) pair handle_error passes to write_error is, for every exception class, one
+    definite pair that does not depend on what the exception carries (evaluated with two different payloads)"""
+    a, b = explore_handle_error(repo, "text"), explore_handle_error(repo, "OTHER\r\nX: y")
+    vals = set()
+    for cq in a:
+        ra = set((r[0], r[1]) if isinstance(r, tuple) and len(r) == 3 else r for r in a[cq][0])
+        rb = set((r[0], r[1]) if isinstance(r, tuple) and len(r) == 3 else r for r in b[cq][0])
+        if ra != rb or len(ra) != 1:
+            return False, ra | rb
+        st, rs = list(ra)[0]
+        if not (isinstance(st, int) and not isinstance(st, bool) and isinstance(rs, str)):
+            return False, ra
+        vals.add((st, rs))
+    return True, vals
+
+
 def r3(ctx):
     repo = ctx.repo
     f = ctx.fn(repo.func(BASE + ".handle_error"))
     g = f.cfg
     EXC = f.params[4]
-    # outer isinstance tuple
-    outer = None
-    for t in g.tests():
-        e = t.ast
-        if isinstance(e, ast.Call) and isinstance(e.func, ast.Name) and e.func.id == "isinstance" and isinstance(e.args[0], ast.Name) and e.args[0].id == EXC \
-                and isinstance(e.args[1], ast.Tuple) and len(e.args[1].elts) > 4:
-            outer = t
-    ctx.need(outer is not None, "C05.R3: the isinstance(exc, (...)) tuple of handle_error was not found")
-    T = [repo.resolve(f.module, f, x) for x in outer.ast.args[1].elts]
-    inner = []
-    for t in g.tests():
-        e = t.ast
-        if t is outer or not (isinstance(e, ast.Call) and isinstance(e.func, ast.Name) and e.func.id == "isinstance" and isinstance(e.args[0], ast.Name) and e.args[0].id == EXC):
-            continue
-        ts = e.args[1].elts if isinstance(e.args[1], ast.Tuple) else [e.args[1]]
-        inner.append((t, [repo.resolve(f.module, f, x) for x in ts]))
-    ctx.need(inner, "C05.R3: no per-class branches in handle_error")
-    covered = [c for _, cs in inner for c in cs]
-    for cq in T:
-        ctx.check("C05.R3", any(repo.is_subclass(cq, c) for c in covered), key(f, "branch-for|" + cq.split(".")[-1]), site(f, text="isinstance tuple member " + cq.split(".")[-1]),
-                  "%s is in the isinstance tuple of handle_error but has no branch: `mesg` is unbound -> UnboundLocalError instead of an error reply" % cq.split(".")[-1], "has a branch")
-    # definite assignment of mesg / status_int / reason at their uses, modulo the tuple
-    last_inner = inner[-1][0]
-    infeasible = [(last_inner, "false")]
-    for var in ("mesg", "status_int", "reason"):
-        v = _role(f, var)
-        stores = stores_to_name(f, v)
-        uses = [n for n in g.nodes if n.kind in ("stmt", "test") and n not in stores and any(isinstance(x, ast.Name) and x.id == v and isinstance(x.ctx, ast.Load) for root in n.cover for x in ast.walk(root))]
-        ctx.need(uses, "C05.R3: no use of %s in handle_error" % v)
-        bad = None
-        for u in uses:
-            p = g.path(g.entry, [u], without_nodes=stores, without_edges=infeasible, follow_exc=False)
-            if p is not None:
-                bad = p
-        ctx.check("C05.R3", bad is None, key(f, "definitely-assigned|" + var), site(f), "`%s` can be used unassigned in handle_error" % v, "definitely assigned", path=bad and g.fmt_path(bad))
+    # handle_error is total and well-typed over the exception classes that can reach it (evaluated per class, however
+    # the dispatch is written: isinstance chain, table + loop, dict): every class leads to write_error with a definite
+    # (int status, str reason, str message); a request object taken from the exception is a request, never text
+    we_nodes = [(n, c) for c in calls_to(repo, f, "gunicorn.util.write_error") for n in nodes_with(f, c)]
+    ctx.need(we_nodes, "C05.R3: handle_error does not call util.write_error")
+    REQ, ADDR0 = f.params[1], f.params[3]
+    req_uses = []          # (node, expr) where a value is used as the request object
+    for c in walk_own(f.node):
+        if isinstance(c, ast.Call):
+            q = repo.call_target(f.module, f, c) or ""
+            if q.endswith("default_environ") and c.args:
+                req_uses += [(n, c.args[0]) for n in nodes_with(f, c)]
+            elif isinstance(c.func, ast.Attribute) and c.func.attr == "access" and len(c.args) >= 2:
+                req_uses += [(n, c.args[1]) for n in nodes_with(f, c)]
+    rows = []
+    known_client_errors = []
+    explored = explore_handle_error(repo, "text")
+    for cq, (replies, reqs, kinds) in explored.items():
+        short = cq.split(".")[-1]
+        ok_reply = len(replies) == 1 and replies != {"U"} and all(isinstance(r, tuple) and len(r) == 3 and isinstance(r[0], int) and 400 <= r[0] <= 599 and isinstance(r[1], str) and isinstance(r[2], str) for r in replies)
+        rows.append({"exception": short, "reply": sorted(map(str, replies)), "request_object": sorted(map(str, reqs))})
+        ctx.check("C05.R3", ok_reply and kinds <= {"return"}, key(f, "branch-for|" + short), site(f, text="exception class " + short),
+                  "for %s handle_error does not reach write_error with a definite (status, reason, message): %s %s -- an unassigned `mesg`/`status_int` means UnboundLocalError "
+                  "instead of an error reply" % (short, sorted(map(str, replies)), sorted(kinds)), "definite reply")
+        bad_req = [r for r in reqs if not (r is None or (isinstance(r, Inst) and r._cls.endswith(".Request")))]
+        ctx.check("C05.R3", not bad_req, key(f, "req-is-request|" + short), site(f, text="exception class " + short),
+                  "for %s handle_error uses %s as the request object (access log / environ): it is not a request -- AttributeError inside handle_error, no error reply, the sync worker dies" % (short, bad_req),
+                  "request object is a Request or absent")
+        if ok_reply and list(replies)[0][0] != 500:
+            known_client_errors.append(cq)
+    ctx.table("C05.R3 handle_error", rows)
+    T = known_client_errors
     # the peer address may be '' (AF_UNIX): it is normalised before anything subscripts it
     ADDR = f.params[3]
     normz = [s for s in stores_to_name(f, ADDR) if isinstance(s.ast, ast.Assign) and isinstance(s.ast.value, ast.BoolOp) and isinstance(s.ast.value.op, ast.Or)
@@ -370,6 +448,15 @@ def r4(ctx):
         vals = [s.ast.value for s in stores_to_name(he, _role(he, var)) if isinstance(s.ast, ast.Assign)]
         ctx.need(vals, "C05.R4: handle_error never assigns %s" % var)
         lit = all(isinstance(v, ast.Constant) for v in vals)
+        if not lit:
+            # not written as literals in place (e.g. a table): decided by evaluation -- one fixed (status, reason)
+            # per exception class, independent of what the exception carries
+            fixed, fvals = status_reason_fixed(repo)
+            ctx.check("C05.R4", fixed, key(he, "literal|" + var), site(he), "`%s` is not a fixed value per exception class in handle_error (%s): client-controlled text could enter the status line / unescaped HTML" % (var, sorted(map(str, fvals))[:4]),
+                      "fixed per exception class")
+            if var == "status_int" and fixed:
+                ctx.check("C05.R4", all(400 <= st <= 599 for st, _ in fvals), key(he, "4xx-5xx"), site(he), "an error reply status outside 4xx/5xx", "all statuses 4xx/5xx")
+            continue
         ctx.check("C05.R4", lit, key(he, "literal|" + var), site(he), "`%s` is not always a literal in handle_error: client-controlled text could enter the status line / unescaped HTML" % var,
                   "%d literal values" % len(vals))
         if var == "status_int" and lit:
